@@ -24,6 +24,14 @@ claim("C05",
       "Structural decision of C05 on the current source: every temporary write of the dispatcher state (batching flag, trigger flag, event/watcher queues, syncing set, constant flags in edit_constant, Event mode in update) is restored -- to the saved value where one was saved -- on every exit including every exceptional one, and the outermost flush is passed on every exit of a flushing scope (rules R05.a-d).",
       "Decides the restore/flush structure for every fault position at once (exceptional edges from every may-raise node); does not decide behavioural equivalence with a fresh object. Trusted: CPython ast, the may-raise model and alias table of DESIGN.md §2.3/2.4; finally blocks are summarised as atomic (loop-carried partial restores inside a finally are not decided).",
       "static analysis: CFG with exceptional edges, write-role (save/ORIG/TEMP) classification, reachability and dominance over the CFG")
+claim("C01",
+      "Structural decision of seven necessary conditions of C01: validate dominates every value store on the same binding (R01.a); the value store has exactly three writers (R01.b); every validating type's constructor chain validates the default after the slots its validators read are set (R01.c); no constructor drops a constraint argument (R01.d); every constraint slot is read by a validator reachable from _validate (R01.e); the bounds validators of Number/Integer/Magnitude/Date/CalendarDate/Range/DateRange/CalendarDateRange/List/HookList equal an oracle written from the property on the complete ordering domain incl. NaN, exhaustively (R01.f, ~4800 abstract cases); tuple-family type-check agreement (R01.g).",
+      "Does not decide the accept-iff-spec equivalence for value *types*, regexes or membership (re.match/isinstance/in are trusted and only checked to be consulted). R01.f assumes well-typed bounds with LO<HI, order-preserving _to_datetime, and treats non-bounds validators as passing.",
+      "static analysis: dominance/def-use on the setter CFG, who-may-write table, linearised constructor event sequences over the static MRO, self-call closure reads, finite-domain abstract interpretation vs. an independent oracle")
+claim("C02",
+      "Structural decision of C02's ordering clause: in Parameter.__set__ no observable effect (value store, link install/drop, async-task cancel, dependency rebinding, watcher dispatch; directly or through a callee summary) can precede a point where the setter may still reject (explicit raise, _validate, set_hook); __set__ overrides act only after super().__set__; update checks the key before its setattr.",
+      "Does not decide that callees are effect-free before their own raises, nor equality of the complete observable state (needs execution). Effects are recognised by the access-path/callee tables of engine/effects.py.",
+      "static analysis: effect recognisers + transitive callee effect summaries, CFG reachability from effect nodes to rejection points")
 
 
 def main():
